@@ -1,4 +1,4 @@
-(* Packet-access skeleton of bpf/antispoof.c : antispoof_ingress (TC).
+(* Packet-access skeleton of bpf/antispoof.c : antispoof_ingress (TC), as of /repo d9f017c.
    Every data_end comparison of the C is an explicit test; every load is a checked rd*.
    The program never stores into the packet.  Statistics (per-CPU counters) and the perf event are
    not observable in the frame or the verdict and are left out; the loads log_violation performs on
@@ -46,18 +46,15 @@ Definition antispoof_body (mp : maps) (dl : N) : M N :=
     if 14 + 20 >? dl then exit TC_ACT_OK else
     src_ip <- rd32 26 ;;
     let allowed :=
-      match binding with
-      | Some b =>
-          if negb (fld 20 1 b =? 0)
-          then (if (mode =? ANTISPOOF_STRICT) || (mode =? ANTISPOOF_LOG_ONLY) then src_ip =? fld 0 4 b else false)
-          else if mode =? ANTISPOOF_LOOSE
-               then (match mp MAP_AS_RANGES (le_n 4 32 ++ le_n 4 src_ip) with Some _ => true | None => false end)
+      if mode =? ANTISPOOF_LOOSE
+      then (match mp MAP_AS_RANGES (le_n 4 32 ++ le_n 4 src_ip) with Some _ => true | None => false end)
+      else match binding with
+           | Some b =>
+               if negb (fld 20 1 b =? 0)
+               then (if (mode =? ANTISPOOF_STRICT) || (mode =? ANTISPOOF_LOG_ONLY) then src_ip =? fld 0 4 b else false)
                else false
-      | None =>
-          if mode =? ANTISPOOF_LOOSE
-          then (match mp MAP_AS_RANGES (le_n 4 32 ++ le_n 4 src_ip) with Some _ => true | None => false end)
-          else false
-      end in
+           | None => false
+           end in
     if negb allowed then
       (if negb (log_violations =? 0) then _m <- rd_bytes 6 6 ;; ret tt else ret tt) ;;;
       if mode =? ANTISPOOF_LOG_ONLY then ret TC_ACT_OK else ret TC_ACT_SHOT
